@@ -51,7 +51,7 @@ def _le(a, b):
 
 
 class Kernel:
-    def __init__(self, t0=1000, step_budget=600, explore_ties=True):
+    def __init__(self, t0=1000, step_budget=600, explore_ties=True, explore_sched=False):
         self.now = Fraction(t0)
         self.t0 = Fraction(t0)
         self.procs = []
@@ -67,6 +67,8 @@ class Kernel:
         self.crash = None
         self.live_threads = []
         self.explore_ties = explore_ties
+        self.explore_sched = explore_sched  # every scheduling decision between runnable threads is a solver choice; locks are preemption points
+        self.nsched = 0
         self.ties = 0
         self.budget_exceeded = False
         self.yields = 0  # number of times the main thread yielded (used by harnesses to place preemptions)
@@ -149,6 +151,9 @@ class Kernel:
                     cands = [p]
             if cands:
                 nxt = cands[0]
+                if self.explore_sched and len(cands) > 1:
+                    nxt = cands[sx.choice("sched%d" % self.nsched, len(cands))]
+                    self.nsched += 1
                 nxt.ready_fn = None
                 nxt.deadline = None
                 if exiting:
@@ -293,6 +298,8 @@ class KLock:
         self.owner = None
 
     def acquire(self, blocking=True, timeout=-1):
+        if self.k.explore_sched and not self.k.dead:
+            self.k.yield_now()
         if self.owner is None:
             self.owner = self.k.cur
             return True
@@ -308,6 +315,8 @@ class KLock:
         if self.owner is None:
             raise RuntimeError("release unlocked lock")
         self.owner = None
+        if self.k.explore_sched and not self.k.dead:
+            self.k.yield_now()
 
     def locked(self):
         return self.owner is not None
